@@ -248,6 +248,8 @@ class Mem:
     def load(s,p,nbytes):
         if p.obj not in s.objs: raise OOB('load through null/unknown pointer',p.obj,p.off,nbytes,0)
         o=s.objs[p.obj]
+        if p.obj in s.symload and ('arr' in o or not is_c(p.off)):
+            s.checks.append((p.obj,bv(p.off,64),nbytes,o['size'],'load')); return s.symload[p.obj](p.off,nbytes)
         if 'arr' in o:
             off=bv(p.off,64); s.checks.append((p.obj,off,nbytes,o['size'],'load'))
             return z3.Concat(*[z3.Select(o['arr'],off+k) for k in reversed(range(nbytes))])
